@@ -258,6 +258,16 @@ package keeper
 // Pre-state invariants of the validator records (INV_VAL), established by InitGenesis / AddValidator / this function:
 //   K1 records are stored under their operator address, K2 last powers exist only for stored validators,
 //   K3 no stored power is negative.
+// removal of a validator record takes its consensus-key index entry with it (the two indexes stay one-to-one)
+//@ func (Keeper) RemoveValidator
+//@   opt inline
+//@   let cons := pkAddress(val(val(old(Validators)[address]).ConsensusPubkey).cachedValue)
+//@   requires forall k bytes :: Validators[k] != None ==> implements(val(val(Validators[k]).ConsensusPubkey).cachedValue, "github.com/cosmos/cosmos-sdk/crypto/types.PubKey")    // INV_VAL K4
+//@   ensures old(Validators)[address] == None ==> err == nil && Validators == old(Validators) && ValidatorsByConsAddr == old(ValidatorsByConsAddr)     // C13: removing_an_unknown_validator_is_a_no_op
+//@   ensures err == nil && old(Validators)[address] != None ==> Validators == old(Validators)[address := None]
+//@        && ValidatorsByConsAddr == old(ValidatorsByConsAddr)[cons := None]                                                                            // C13: record_and_key_index_entry_removed_together
+//@   assigns Validators[address], ValidatorsByConsAddr[cons]
+
 //@ func (Keeper) ApplyAndReturnValidatorSetUpdates
 //@   let V0 := Validators
 //@   let L0 := LastValidatorPowers
